@@ -8,7 +8,7 @@ from pyvc.engine import Fact, Step
 from pyvc.registry import ANY, CLASSES, Contract, Loop, declare_ref, lemma, scan, assumption, observation
 from contracts import shapes as S_
 from contracts.c_utils import ETy, OptET, us, t_time, t_unit, mk
-from contracts.c_events import EL, q_list, is_heap, mem, ev_time, ev_type, ev_task, et, lst_mod, EVENT
+from contracts.c_events import EL, q_list, is_heap, mem, ev_time, ev_type, ev_task, et, lst_mod, EVENT, same_members
 from contracts.c_tasks import TASK, RUNNING, SCHEDULED, PREEMPTED, COMPLETED, CANCELLED, EVICTED, VIRTUAL, RELEASED, wf_task, some, get, fld as tfld
 from contracts.c_taskgraph import TG, TGR, GRAPH, Adj, TaskList, ready_to_run, g_children, g_parents, task_state, closed_graph
 from contracts.c_simulator import SIM, Simulator, sim_queue, sim_time, FutureMap, closed_queue, WPS, POOL, PoolMap
@@ -90,8 +90,16 @@ def _tg_cancel_ens(c):
             [x],
             z3.If(
                 closure(c.pre, g, task, x),
-                z3.And(x > 0, x < c.alloc0, task_state(c.post, x) == CANCELLED, c.post.rd(x, TASK, "_cancellation_time")[1] == T.opt_some(OptET, c.arg("time"))),
-                task_state(c.post, x) == task_state(c.pre, x),
+                z3.And(
+                    x > 0,
+                    x < c.alloc0,
+                    task_state(c.post, x) == CANCELLED,
+                    c.post.rd(x, TASK, "_cancellation_time")[1] == T.opt_some(OptET, c.arg("time")),
+                    # (TaskGraph.cancel#body: only a task that has not started is cancelled by the cascade)
+                    z3.Or(task_state(c.pre, x) == VIRTUAL, task_state(c.pre, x) == RELEASED, task_state(c.pre, x) == SCHEDULED),
+                ),
+                # (TaskGraph.cancel#body: a task that is not reported is exactly as it was)
+                z3.Implies(z3.And(0 < x, x < c.alloc0), z3.And(*[c.post.rd(x, TASK, f)[1] == c.pre.rd(x, TASK, f)[1] for f in ("_state", "_cancellation_time", "_probability", "_remaining_time")])),
             ),
             patterns=[task_state(c.post, x), closure(c.pre, g, task, x), c.post.rd(x, TASK, "_cancellation_time")[1]],
         ),
@@ -602,36 +610,191 @@ Contract(
 )
 Contract("workload.placement.Placement.is_placed", inline=True, props=("C16", "C06"))
 
+# -------------------------------------------------------------------------------------------------
+# __create_events_from_task_placement_skip : an unplaced decision either defers the task (its pending placement leaves the
+# queue and the cache, the task falls back to its pre-scheduling state) or - with drop_skipped_tasks - cancels the cascade
+# and reports one TASK_CANCEL event per cancelled task. Verified against the body (was an assumed contract).
+# -------------------------------------------------------------------------------------------------
+def _sk_names(c):
+    s, pl = c.arg("self"), c.arg("placement")
+    task = c.pre.rd(pl, PL, "_computation")[1]
+    wl = c.pre.rd(s, SIM, "_workload")[1]
+    g = c.pre.d_val(TGMap, c.pre.rd(wl, WORKLOAD, "_task_graphs")[1], c.pre.rd(task, TASK, "_task_graph")[1])
+    return s, pl, task, sim_queue(c.pre, s), fut(c.pre, s), tid(c.pre, task), g
+
+
+def _sk_requires(c):
+    s, pl, task, lst, fm, k, g = _sk_names(c)
+    return {
+        "heap_ok": is_heap(c.pre, lst),
+        "task_present": z3.And(task > 0, c.pre.cls_tag(task) == CLASSES[TASK].code),
+        "task_wf": wf_task(c.pre, task),
+    }
+
+
+def _sk_mod(c):
+    s, pl, task, lst, fm, k, g = _sk_names(c)
+    out = lst_mod(c, lst)
+    for f in ("_state", "_cancellation_time", "_probability", "_remaining_time", "_scheduling_time", "_scheduler_placement", "_worker_pool_id"):
+        out[c.pre.fld_arr(TASK, f)[0]] = ANY
+    for p_ in ("len", "keys", "idx", "dom"):
+        out[c.pre.carr(FutureMap, p_)[0]] = [fm]
+    return out
+
+
+_SK_TASK_FIELDS = ("_state", "_cancellation_time", "_probability", "_remaining_time", "_scheduling_time", "_scheduler_placement", "_worker_pool_id")
+
+
+def _sk_ens(c):
+    s, pl, task, lst, fm, k, g = _sk_names(c)
+    drop = c.arg("drop_skipped_tasks")
+    r = c.res
+    j, e, t = z3.Int(H.fresh_name("sk_j")), z3.Int(H.fresh_name("sk_e")), z3.Int(H.fresh_name("sk_t"))
+    x = z3.Const(H.fresh_name("sk_x"), T.sort(T.STR))
+    ej = c.post.l_elem(EL, r, j)
+    had = c.pre.d_dom(FutureMap, fm, k)
+    pending = c.pre.d_val(FutureMap, fm, k)
+    st0, st1 = task_state(c.pre, task), task_state(c.post, task)
+    same_t = lambda y: z3.And(*[c.post.rd(y, TASK, f)[1] == c.pre.rd(y, TASK, f)[1] for f in _SK_TASK_FIELDS])
+    return {
+        "skip.fresh_list": r >= c.alloc0,
+        # C16: the queue is a valid heap on return (the pending placement is removed through remove_event)
+        "skip.heap_ok": is_heap(c.post, lst),
+        # the events it returns are fresh TASK_CANCEL / TASK_RELEASE events of some task; none without drop_skipped_tasks
+        "skip.events_cancel_or_release": z3.ForAll(
+            [j],
+            z3.Implies(z3.And(0 <= j, j < c.post.c_len(EL, r)), z3.And(ej >= c.alloc0, ev_task(c.post, ej) != 0, z3.Or(ev_type(c.post, ej) == et("TASK_CANCEL"), ev_type(c.post, ej) == et("TASK_RELEASE")))),
+            patterns=[c.post.l_elem(EL, r, j)],
+        ),
+        "skip.no_events_when_deferred": z3.Implies(z3.Not(drop), c.post.c_len(EL, r) == 0),
+        # C06 (cancellation is reported): with drop_skipped_tasks every task of the cascade gets its TASK_CANCEL event
+        "skip.cascade_reported": z3.Implies(
+            drop,
+            z3.ForAll(
+                [t],
+                z3.Implies(closure(c.pre, g, task, t), z3.Exists([j], z3.And(0 <= j, j < c.post.c_len(EL, r), ev_type(c.post, ej) == et("TASK_CANCEL"), ev_task(c.post, ej) == t, ev_time(c.post, ej) == c.arg("time")))),
+                patterns=[closure(c.pre, g, task, t)],
+            ),
+        ),
+        # C06: with drop_skipped_tasks the cascade is cancelled, every other task is as it was; queue and cache untouched
+        "skip.drop_cancels_cascade_only": z3.Implies(
+            drop,
+            z3.And(
+                z3.ForAll([t], z3.Implies(z3.And(0 < t, t < c.alloc0), z3.If(closure(c.pre, g, task, t), task_state(c.post, t) == CANCELLED, same_t(t))), patterns=[task_state(c.post, t)]),
+                z3.Implies(st0 != CANCELLED, st1 == CANCELLED),
+                c.post.c_len(EL, lst) == c.pre.c_len(EL, lst),
+                c.post.l_elems(EL, lst) == c.pre.l_elems(EL, lst),
+                z3.ForAll([x], z3.And(c.post.d_dom(FutureMap, fm, x) == c.pre.d_dom(FutureMap, fm, x)), patterns=[c.post.d_dom(FutureMap, fm, x)]),
+            ),
+        ),
+        # C06 / C05: a deferred task with a pending placement falls back to its pre-scheduling state (VIRTUAL / RELEASED), its
+        # pending placement leaves queue and cache; one without a pending placement is not touched at all
+        "skip.deferred_task_unscheduled": z3.Implies(
+            z3.And(z3.Not(drop), had),
+            z3.And(
+                st0 == SCHEDULED,
+                st1 == c.pre.rd(task, TASK, "_pre_scheduling_state")[1],
+                z3.Or(st1 == VIRTUAL, st1 == RELEASED),
+                c.post.rd(task, TASK, "_scheduler_placement")[1] == 0,
+                z3.Not(c.post.d_dom(FutureMap, fm, k)),
+                same_members(c, lst, removed=pending),
+                c.post.c_len(EL, lst) == c.pre.c_len(EL, lst) - 1,
+            ),
+        ),
+        "skip.deferred_without_pending_untouched": z3.Implies(
+            z3.And(z3.Not(drop), z3.Not(had)),
+            z3.And(same_t(task), c.post.c_len(EL, lst) == c.pre.c_len(EL, lst), c.post.l_elems(EL, lst) == c.pre.l_elems(EL, lst)),
+        ),
+        "skip.other_tasks_untouched_when_deferred": z3.Implies(z3.Not(drop), z3.ForAll([t], z3.Implies(z3.And(t != task, 0 < t, t < c.alloc0), same_t(t)), patterns=[task_state(c.post, t)])),
+        # the cache of pending placements only loses the entry of this task
+        "skip.cache_loses_only_this_entry": z3.ForAll(
+            [x],
+            z3.Implies(x != k, z3.And(c.post.d_dom(FutureMap, fm, x) == c.pre.d_dom(FutureMap, fm, x), c.post.d_val(FutureMap, fm, x) == c.pre.d_val(FutureMap, fm, x))),
+            patterns=[c.post.d_dom(FutureMap, fm, x)],
+        ),
+        "skip.cache_only_shrinks": z3.ForAll([x], z3.Implies(c.post.d_dom(FutureMap, fm, x), c.pre.d_dom(FutureMap, fm, x)), patterns=[c.post.d_dom(FutureMap, fm, x)]),
+        # it queues nothing itself (the events it creates are returned): the queue can only lose the pending placement
+        "skip.queue_members_only_shrink": z3.ForAll([e], z3.Implies(mem(c.post, lst, e), mem(c.pre, lst, e)), patterns=[mem(c.post, lst, e)]),
+        # every task it touches goes through Task.unschedule / Task.cancel: the Task representation invariant is preserved
+        "skip.tasks_stay_well_formed": z3.ForAll([t], z3.Implies(z3.And(0 < t, t < c.alloc0, wf_task(c.pre, t)), wf_task(c.post, t)), patterns=[c.post.rd(t, TASK, "_state")[1]]),
+    }
+
+
+def _sk_loop_inv(kind):
+    def inv(c, L):
+        s, pl, task, lst, fm, k, g = _sk_names(c)
+        h = c.post
+        te = L.var("task_events")
+        j = z3.Int(H.fresh_name("skl_j"))
+        ej = h.l_elem(EL, te, j)
+        out = {
+            "events_list_fresh": z3.And(te >= c.alloc0, te < c.run.cur_alloc()),
+            "events_ok": z3.ForAll(
+                [j],
+                z3.Implies(
+                    z3.And(0 <= j, j < h.c_len(EL, te)),
+                    z3.And(ej >= c.alloc0, ej < c.run.cur_alloc(), ev_task(h, ej) != 0, z3.Or(ev_type(h, ej) == et("TASK_CANCEL"), ev_type(h, ej) == et("TASK_RELEASE"))),
+                ),
+                patterns=[h.l_elem(EL, te, j)],
+            ),
+        }
+        if kind == "cancel":
+            out["one_cancel_event_per_task_so_far"] = z3.And(
+                h.c_len(EL, te) == L.i,
+                z3.ForAll(
+                    [j],
+                    z3.Implies(z3.And(0 <= j, j < L.i), z3.And(ev_type(h, ej) == et("TASK_CANCEL"), ev_task(h, ej) == h.l_elem(TaskList, L.seq.z, j), ev_time(h, ej) == c.arg("time"))),
+                    patterns=[h.l_elem(EL, te, j), h.l_elem(TaskList, L.seq.z, j)],
+                ),
+            )
+        else:
+            n0 = L.head.c_len(EL, te)
+            out["earlier_events_kept"] = z3.And(
+                h.c_len(EL, te) == n0 + L.i,
+                z3.ForAll(
+                    [j],
+                    z3.Implies(
+                        z3.And(0 <= j, j < n0),
+                        z3.And(ej == L.head.l_elem(EL, te, j), ev_type(h, ej) == ev_type(L.head, ej), ev_task(h, ej) == ev_task(L.head, ej), ev_time(h, ej) == ev_time(L.head, ej)),
+                    ),
+                    patterns=[h.l_elem(EL, te, j), L.head.l_elem(EL, te, j)],
+                ),
+            )
+        return out
+
+    return inv
+
+
+def _sk_loop_mod(c):
+    te = c.run.frames[-1].env.get("task_events")
+    out = {c.pre.carr(EL, "len")[0]: [te.z], c.pre.carr(EL, "elem")[0]: [te.z]}
+    for f in ("_event_type", "_time", "_task", "_task_graph", "_placement"):
+        out[c.pre.fld_arr(EVENT, f)[0]] = []
+    return out
+
+
+def _sk_loop_lemmas(c, L, phase):
+    if phase == "exit":
+        return [Fact("list.mem_def", c.post.l_mem_def(TaskList, L.seq.z))]
+    return []
+
+
 Contract(
     "simulator.Simulator.__create_events_from_task_placement_skip",
     params={"self": Simulator.ty, "time": ETy, "placement": T.Ref(PL), "drop_skipped_tasks": T.BOOL},
     ret=EL,
-    trusted=True,
+    requires=_sk_requires,
+    raises={"AssertionError": lambda c: z3.Not(T.opt_is_none(S_.OptSTR, c.pre.rd(c.arg("placement"), PL, "_worker_pool_id")[1]))},
+    may_raise=("ValueError", "RuntimeError", "AttributeError"),
+    raise_unchanged=False,
+    modifies=_sk_mod,
+    loops={0: Loop(inv=_sk_loop_inv("cancel"), modifies=_sk_loop_mod, lemmas=_sk_loop_lemmas), 1: Loop(inv=_sk_loop_inv("release"), modifies=_sk_loop_mod)},
+    locals={"task_events": EL},
+    ensures=_sk_ens,
+    entry_facts=lambda c: [closed_queue(c)],
     allocates=True,
-    may_raise=("ValueError",),
-    modifies=lambda c: dict(
-        list(lst_mod(c, sim_queue(c.pre, c.arg("self"))).items())
-        + [(c.pre.fld_arr(TASK, f)[0], ANY) for f in ("_state", "_cancellation_time", "_probability", "_remaining_time", "_scheduling_time", "_scheduler_placement", "_worker_pool_id")]
-        + [(c.pre.carr(FutureMap, p)[0], [fut(c.pre, c.arg("self"))]) for p in ("len", "keys", "idx", "dom")]
-    ),
-    ensures=lambda c: z3.And(
-        c.res >= c.alloc0,
-        is_heap(c.post, sim_queue(c.pre, c.arg("self"))),
-        # it only creates TASK_CANCEL / TASK_RELEASE events
-        z3.ForAll(
-            [z3.Int("sk_j")],
-            z3.Implies(z3.And(0 <= z3.Int("sk_j"), z3.Int("sk_j") < c.post.c_len(EL, c.res)), z3.And(c.post.l_elem(EL, c.res, z3.Int("sk_j")) != 0, ev_type(c.post, c.post.l_elem(EL, c.res, z3.Int("sk_j"))) != et("TASK_PLACEMENT"))),
-            patterns=[c.post.l_elem(EL, c.res, z3.Int("sk_j"))],
-        ),
-        # the cache of pending placements only loses entries
-        z3.ForAll([z3.Const("sk_x", T.sort(T.STR))], z3.Implies(c.post.d_dom(FutureMap, fut(c.pre, c.arg("self")), z3.Const("sk_x", T.sort(T.STR))), c.pre.d_dom(FutureMap, fut(c.pre, c.arg("self")), z3.Const("sk_x", T.sort(T.STR)))), patterns=[c.post.d_dom(FutureMap, fut(c.pre, c.arg("self")), z3.Const("sk_x", T.sort(T.STR)))]),
-        # it queues nothing itself (the events it creates are returned): the queue can only lose the pending placement
-        z3.ForAll([z3.Int("sk_e")], z3.Implies(mem(c.post, sim_queue(c.pre, c.arg("self")), z3.Int("sk_e")), mem(c.pre, sim_queue(c.pre, c.arg("self")), z3.Int("sk_e"))), patterns=[mem(c.post, sim_queue(c.pre, c.arg("self")), z3.Int("sk_e"))]),
-        # every task it touches goes through Task.unschedule / Task.cancel, which preserve the Task representation invariant
-        z3.ForAll([z3.Int("sk_t")], z3.Implies(wf_task(c.pre, z3.Int("sk_t")), wf_task(c.post, z3.Int("sk_t"))), patterns=[c.post.rd(z3.Int("sk_t"), TASK, "_state")[1]]),
-    ),
-    note="__create_events_from_task_placement_skip (unplaced / skipped decisions: unschedule or cancel cascade): assumed to keep the queue a valid heap; its effect on task states is decided by the bounded worlds / taskgraph stand-ins",
-    props=("C16", "C06"),
+    note="verified against the body. Exception paths are not constrained: AssertionError (a placed decision), RuntimeError (Placement.task of a non-task placement), ValueError (unknown task graph; the cached pending placement is not queued; the task with a pending placement is not SCHEDULED; Event() of a task without a cancellation / release time), AttributeError. The cascade itself is TaskGraph.cancel (abstract contract, body verified as TaskGraph.cancel#body)",
+    props=("C16", "C06", "C05"),
 )
 
 
